@@ -544,7 +544,7 @@ def base_answers_case(seed, role="client"):
     def exchange(tag):
         reqs = []
         for _ in range(rng.randrange(3, 25)):
-            kind = rng.choice(["DWR", "DWR", "DWR", "CER", "APP"])
+            kind = rng.choice(["DWR", "DWR", "DWR", "CER", "APP", "STRAY-DWA"])
             h, e = ident(), ident()
             if rng.random() < 0.2:
                 e = h
@@ -552,6 +552,8 @@ def base_answers_case(seed, role="client"):
                 reqs.append(("DWA", h, e, R.encode(N.dwr(hbh=h, e2e=e))))
             elif kind == "CER":
                 reqs.append(("CEA", h, e, R.encode(N.cer(apps=[16777251], hbh=h, e2e=e))))
+            elif kind == "STRAY-DWA":
+                reqs.append((None, h, e, R.encode(N.dwa(hbh=h, e2e=e))))                # a base answer from the peer: must not be answered
             else:
                 reqs.append((None, h, e, R.encode(N.app_answer(5000 + len(reqs)))))      # inbound traffic that provokes no answer
         h, e = ident(), ident()
